@@ -1,4 +1,5 @@
 import PsV.Proofs.FitQuad
+import PsV.Proofs.FitDiffs
 /-!
 # C09 — the unconstrained fit minimises the penalised weighted least-squares objective
 
@@ -208,6 +209,56 @@ example : (∀ r < exP.rows.size, rowW exP r ≠ 0 →
   refine ⟨?_, trivial⟩
   intro a _ k _ b _
   simp [derivCoef, exDim, Arith.div, Arith.mul, Arith.sub]
+
+/-! ## 7. the code's penalty matrix: `divided_diffs` produces the derivative coefficients -/
+
+/-- `divided_diffs(order, p, j, knots, out)` of glam.c, applied to a coefficient vector, yields coefficient `j` of the
+p-th derivative in the basis of order `order − p` (de Boor's recurrence `derivCoef`).  The code divides by
+`delta = (t_{j+order+1} − t_{j+p})/(order − (p−1))`, the recurrence multiplies by `order − (p−1)` and divides by the knot
+difference: the same number in every field, also when a knot difference vanishes (both are 0).  Hence `‖D c‖²` of the
+code's finite-difference matrix IS the sum of squares of the B-spline coefficients of the p-th derivative: the scaling
+of the code matches the statement of the property (no constant factor). -/
+theorem penalty_dividedDiffs_eq_derivCoeffs (t : Int → α) (order p j : Nat) (c : Nat → α) :
+    ∑ i ∈ Finset.range (p+1), (dividedDiffs t order p j).getD i 0 * c (j + i) = derivCoef t order p c j :=
+  dividedDiffs_eq_derivCoeffs t order p j c
+
+/-- row `r` of the `(n−p) × n` matrix `finitediff` of `calc_penalty` maps `c` to its p-th derivative coefficient `r`. -/
+theorem finiteDiff_row_is_derivCoef (t : Int → α) (order p n r : Nat) (c : Nat → α) (hr : r < n - p) :
+    ∑ c' ∈ Finset.range n, (finiteDiff t order p n).get r c' * c c' = derivCoef t order p c r :=
+  finiteDiff_row t order p n r c hr
+
+/-- one application of `derivCoef` gives `order·(c_{j+1} − c_j)/(t_{j+1+order} − t_{j+1})` … -/
+theorem derivCoef_one_formula (t : Int → α) (n : Nat) (c : Nat → α) (j : Nat) :
+    derivCoef t (n+1) 1 c j
+      = ((n+1 : Nat) : α) * (c (j+1) - c j) / (t (((j : Int) + 1) + n + 1) - t ((j : Int) + 1)) :=
+  derivCoef_one t n c j
+
+/-- … and these are the coefficients of the derivative in the basis of order `n`: the derivative of `Σ_{i<N} c_i B_{i,n+1}`
+(`Dind … 1`, the knot-difference formula of the evaluation spec) is `Σ_{j<N−1} c'_j B_{j+1,n}` plus two boundary terms
+that involve only `B_{0,n}` and `B_{N,n}`, which vanish on the fully supported range `[t_{n+1}, t_N)`. -/
+theorem derivCoef_is_derivative (ind : Int → Bool) (t : Int → α) (x : α) (n : Nat) (c : Nat → α)
+    (N : Nat) (hN : 1 ≤ N) :
+    ∑ i ∈ Finset.range N, c i * Dind ind t x 1 (n+1) (i : Int)
+      = ∑ j ∈ Finset.range (N-1), derivCoef t (n+1) 1 c j * Bind ind t x n ((j : Int) + 1)
+        + c 0 * ((n+1 : Nat) : α) * Bind ind t x n 0 / (t ((n : Int) + 1) - t 0)
+        - c (N-1) * ((n+1 : Nat) : α) * Bind ind t x n (N : Int) / (t ((N : Int) + n + 1) - t (N : Int)) :=
+  derivCoef_one_is_derivative ind t x n c N hN
+
+/-- non-vacuity: the weights for uniform knots are the familiar `[1, -2, 1]`. -/
+example : dividedDiffs (fun i => (i : Rat)) 3 2 0 = [1, -2, 1] := by
+  simp [dividedDiffs, Arith.div, Arith.sub, Arith.neg, Arith.ofNat, Arith.one, Arith.zero]; norm_num
+
+/-! ## 8. the normal equations characterise the minimiser (any size) -/
+
+/-- `M` symmetric positive definite: `M c = r` ⇔ `c` minimises `½cᵀMc − rᵀc`; the minimiser is unique. -/
+theorem normal_eq_minimises {n : Nat} {M : Nat → Nat → α} {r c : Nat → α} (hS : Symm n M) (hP : PosDef n M) :
+    ((∀ i < n, mulVec n M c i = r i) ↔ (∀ c' : Nat → α, halfObj n M r c ≤ halfObj n M r c'))
+    ∧ ((∀ i < n, mulVec n M c i = r i) → ∀ c' : Nat → α, halfObj n M r c' ≤ halfObj n M r c → ∀ i < n, c' i = c i) :=
+  ⟨NormalEq.normal_eq_minimises hS hP, fun h _ hle => NormalEq.minimiser_unique hS hP h hle⟩
+
+example : Symm 2 NormalEq.M2 := by
+  intro i _ j _
+  simp [NormalEq.M2, eq_comm]
 
 end
 end PsV
